@@ -520,7 +520,9 @@ def real_job(args):
         out["bad"] = ["extracted reader driver failed (rc=%s): %s" % (rc2, err2[-300:])]
     elif pyimg is None:
         res = parse_real(lines)
-        out["bad"] = ["python decoder rejects the image (%s); extracted valid_image = %s" % (pybad[0], res["valid"])]
+        out["bad"] = ["extracted valid_image = %s (first failing clause: %s); the python decoder rejects the image too (%s)"
+                      % (res["valid"], CLAUSES.get(res["clause"], res["clause"]), pybad[0])] if not res["valid"] else \
+                     ["the python decoder rejects the image (%s) but the extracted valid_image accepts it" % (pybad[0],)]
     else:
         res = parse_real(lines)
         out["bad"] = check_real(spec, data, res, pyimg, pybad)
